@@ -78,3 +78,9 @@ claim("C08",
   "Decides structural necessary conditions of C08 for every event history: the incremental sums are updated by an operation and its exact inverse under identical conditions; every accumulator is re-initialised before a metric report rebuilds the sums; Filter succeeds only through the threshold check or an enumerated exemption and rejects expired metrics as configured; an exceeded threshold always rejects; per-node thresholds never leak into the shared profile. It does not decide the inequality, its rounding, or equality with a fresh cache; locking is not claimed (conditional locking).",
   "trusts go/ssa and the canonical path rendering; a behaviour-preserving rewrite of only one of addPod/deletePod is reported as a mirror difference (by design: both sides must stay literal mirrors)",
   "DESIGN.md §4 C08")
+
+claim("C13",
+  "custom SSA/AST rules: enum-vs-table extraction of the forbidden pairs, constant ordering of the priority ranges, validator result-flow (error discipline) rule, single-return-shape rule for the immutability validators, replace+erase pairing and value provenance, call-pattern table of the translation, key-absence guard rule, conditional-constant exploration of the shape validators",
+  "Decides structural necessary conditions of C13 for every pod: the forbidden QoS/priority pairs cover the priority enum; ranges are ordered and disjoint; on update both immutability validators compare the raw classes on every path and every validator result decides the admission; translation replaces and erases on the same path with the value coming only from the native amount (CPU in milli), over requests/limits of both container lists and overhead; a request is filled from a limit only when undeclared; batch needs BE and LSR/LSE need whole CPUs. It does not decide amount preservation for arbitrary quantities, idempotence, or the summary annotation.",
+  "trusts go/ssa/go/types and the rule tables in internal/rules/c13.go; the priority bounds are package variables, their declared initial values are checked",
+  "DESIGN.md §4 C13")
